@@ -68,6 +68,18 @@ CHECKS = {
         "DESIGN.md §4 C17",
         TRUSTED + " networkx.draw_networkx is replaced by a recorder at the module attribute pytestarch imports.",
     ),
+    "C02": (
+        "exhaustive enumeration of statement-list position chains (alphabet introspected from the ast grammar) x import forms x importer kinds as real files scanned by the real entry point; plus every (importer, target, form, module_path) over a fixed skeleton",
+        "Every chain of statement-list positions up to the nesting bound x every import form x three importer kinds is written as a real Python file into a real project on tmpfs (self-checked by parsing it back) and scanned with get_evaluable_architecture; every import statement must yield its edge and no edge may exist that no statement accounts for. Additionally every (importer file, target module, import form, module_path, spelling) combination over a 12-module skeleton is scanned on its own.",
+        "DESIGN.md §4 C02",
+        TRUSTED + " Tree assumptions A1-A4 (no dots in names, no symlinks, no file/dir stem clash, relative imports stay below root).",
+    ),
+    "C10": (
+        "exhaustive enumeration of (layout, module_path, import-statement set, external option configuration) with real scans; externals model + differential against the default configuration",
+        "For every module_path of a project layout on tmpfs, every set of up to k import statements from a pool built to collide textually with internal names and every external-option configuration (excluded / included / glob and regex exclusion tuples up to size 2 drawn from all external and internal names) the real entry point is executed; external modules and imports must equal the model, internal modules and imports must be identical to the model and to the default configuration.",
+        "DESIGN.md §4 C10",
+        TRUSTED + " One project layout with three module_path choices; patterns generated from names, not arbitrary regexes.",
+    ),
 }
 
 PENDING = {}
